@@ -66,13 +66,18 @@ register("C16", "exploration",
          "multiprocessing primitives) and any disagreement is re-run in threading mode: only a difference "
          "between the modes counts; (conc-mp-obj, conc-mp-meta) the C07 / C12 scenarios with USE_MULTIPROCESSING=True: "
          "tasks stand for forked processes (fork-view of the store object, shared simulated mp primitives, every "
-         "manager-list operation a yield point, PRNG-chosen wake-ups), oracles of C07/C12/C08",
+         "manager-list operation a yield point, PRNG-chosen wake-ups), oracles of C07/C12/C08; (fault-sweep-mp, "
+         "fault-random-mp) the single-fault runs of C13 in multiprocessing mode, any disagreement re-run in threading "
+         "mode (error and roll-back paths of the multiprocessing twins)",
          COMMON_ASSUME + ["contention among real OS-scheduled forked processes is outside the simulator; "
                           "processes are simulated tasks with fork-views of the store"],
          30, 420,
          [SeqPart("C16", mp=True, name="seq-mp", focus=["op:store", "op:tag", "delete-ok", "meta"]),
           ConcPart("C16", "obj", mp=True, name="conc-mp-obj"),
-          ConcPart("C16", "meta", mp=True, name="conc-mp-meta", weight=0.6)])
+          ConcPart("C16", "meta", mp=True, name="conc-mp-meta", weight=0.6),
+          SingleSweepPart("C16", "FAULT", "fault-sweep-mp", errnos=("EIO",), modes=(False, True), weight=0.4,
+                          knob_sets=[dict(mp=True)]),
+          SingleRandomPart("C16", "FAULT", "fault-random-mp", weight=0.4, mp=True)])
 
 CONC_RULE = ConcPart.rule
 
